@@ -39,7 +39,7 @@ def case_hash(obj):
 
 class Stage:
     def __init__(self, name, kind, evaluate, n=0, strategy=None, enumerate=None, cases=None, exhaustive=False,
-                 shards=None):
+                 shards=None, vary_hashseed=False):
         self.name = name
         self.kind = kind
         self.evaluate = evaluate
@@ -49,6 +49,8 @@ class Stage:
         self.cases = cases
         self.exhaustive = exhaustive
         self.shards = shards
+        # when set, every shard worker (and the IsoQuant children it forks) runs under its own PYTHONHASHSEED
+        self.vary_hashseed = vary_hashseed
 
 
 class Ctx:
@@ -160,15 +162,16 @@ def replay_worker(argv):
         json.dump(res, f, default=str)
 
 
-def run_regression(pid, tier):
+def run_regression(pid, tier, files=None):
     """Re-evaluate every committed replay file of this property (seconds-long regression tier)."""
     import glob
-    files = sorted(glob.glob(os.path.join(VERIF, "replays", pid, "*.json")))
+    if files is None:
+        files = sorted(glob.glob(os.path.join(VERIF, "replays", pid, "*.json")))
     if not files:
         return []
     tmp = tempfile.mkdtemp(prefix="iqverif-reg-")
     env = dict(os.environ)
-    env.setdefault("PYTHONHASHSEED", "0")
+    env["PYTHONHASHSEED"] = "0"
     env["PYTHONPATH"] = VERIF + os.pathsep + env.get("PYTHONPATH", "")
     env["PYTHONWARNINGS"] = "ignore"
     out = []
@@ -177,8 +180,16 @@ def run_regression(pid, tier):
         for i, fpath in enumerate(files):
             o = os.path.join(tmp, "g%d.json" % i)
             log = open(os.path.join(tmp, "g%d.log" % i), "wb")
+            fenv = dict(env)
+            try:
+                with open(fpath) as f:
+                    hs = json.load(f).get("case", {}).get("_hashseed")
+                if hs is not None:
+                    fenv["PYTHONHASHSEED"] = str(hs)
+            except Exception:
+                pass
             procs.append((subprocess.Popen([PYTHON, "-m", "vlib.shard", "--replay", pid, fpath, tier, o], cwd=VERIF,
-                                           env=env, stdout=log, stderr=subprocess.STDOUT), o, log, fpath))
+                                           env=fenv, stdout=log, stderr=subprocess.STDOUT), o, log, fpath))
             if len(procs) >= NSHARDS:
                 _drain(procs, out)
                 procs = []
@@ -233,15 +244,19 @@ def run_stage_sharded(pid, stage, seed, tier, nshards=None):
     tmp = tempfile.mkdtemp(prefix="iqverif-par-")
     procs = []
     env = dict(os.environ)
-    env.setdefault("PYTHONHASHSEED", "0")
+    env["PYTHONHASHSEED"] = "0"
     env["PYTHONPATH"] = VERIF + os.pathsep + env.get("PYTHONPATH", "")
     env["PYTHONWARNINGS"] = "ignore"
     try:
         for sh in range(nshards):
             out = os.path.join(tmp, "r%d.json" % sh)
             log = open(os.path.join(tmp, "w%d.log" % sh), "wb")
+            wenv = env
+            if stage.vary_hashseed:
+                wenv = dict(env)
+                wenv["PYTHONHASHSEED"] = str(derive_seed(seed, "hashseed", stage.name, sh) % 4294967295)
             p = subprocess.Popen([PYTHON, "-m", "vlib.shard", pid, stage.name, str(sh), str(nshards), str(seed), tier,
-                                  out], cwd=VERIF, env=env, stdout=log, stderr=subprocess.STDOUT)
+                                  out], cwd=VERIF, env=wenv, stdout=log, stderr=subprocess.STDOUT)
             procs.append((p, out, log))
         results = []
         for p, out, log in procs:
@@ -310,18 +325,18 @@ def main_check(pid, tier, seed, replay_path=None):
     known_sigs = {k["signature"]: k for k in known if k.get("status") == "known"}
 
     if replay_path:
-        rp, ctx = replay(pid, replay_path, tier)
-        if ctx.harness_errors:
-            print(ctx.harness_errors[0])
+        r = run_regression(pid, tier, [os.path.abspath(replay_path)])[0]
+        if r.get("status") != "ok":
+            print((r.get("harness_errors") or ["replay failed"])[0])
             return 2
-        sigs = set(v["sig"] for v in ctx.violations)
+        sigs = set(v["sig"] for v in r["violations"])
         for s in sorted(sigs):
             if s in known_sigs:
                 print("KNOWN-FINDING: property=%s %s" % (pid, known_sigs[s]["what"]))
             else:
                 print("VIOLATION property=%s replay=%s" % (pid, replay_path))
                 print("  signature: %s" % s)
-                for v in ctx.violations:
+                for v in r["violations"]:
                     if v["sig"] == s:
                         print("  detail: %s" % json.dumps(v["detail"], default=str)[:2000])
                         break
